@@ -58,6 +58,9 @@ type Profile struct {
 	WaitOnNeverPath int
 	// SoftHang: add a never-ending step that is referenced only through !soft-optional.
 	SoftHang bool
+	// HeteroList: percent of programs whose first output holds a list literal of two differently shaped
+	// objects (field hl).
+	HeteroList int
 	// PSimple: percent of plugin steps that use the two-output step `work_simple` (never with mode alt).
 	PSimple int
 	// StageRefs: percent of plugin steps whose whole `outputs` stage object ($.steps.x.outputs: a map
@@ -509,6 +512,12 @@ func GenProgram(t *rapid.T, prof *Profile, doc Doc) *Program {
 		}
 		if g.pct(25, "out_input_tag") {
 			fields = append(fields, F("in_tag", Ref("input", "tag")))
+		}
+		if g.pct(prof.HeteroList, "hetero_list") {
+			fields = append(fields, F("hl", &Expr{K: "list", Items: []*Expr{
+				Obj(F("p", Ref("input", "n"))),
+				Obj(F("q", Ref("input", "tag"))),
+			}}))
 		}
 		if prof.DeepExpr && g.pct(25, "out_float_string") {
 			// a conversion chain through the float functions (whole numbers print without a decimal point)
